@@ -188,11 +188,16 @@ def _bound_by(db, chk, m):
     chk.analysed_add("functions", ref)
     want_tbl = {"KERNEL_KERNEL_DELAY": "gpu_kernel_kernel_overhead", "KERNEL_LAUNCH_DELAY": "gpu_kernel_launch_overhead", "DEPENDENCY": "", "SYNC_DEPENDENCY": ""}
 
+    comm_args = []
+
     def hook(I, name, pos, kw, node):
         if name == "is_comm_kernel":
+            comm_args.append(to_term(pos[0]))
             return ("iscomm", to_term(pos[0]))
         if name == "pd.isna":
             return T.FALSE
+        if name in ("is_memory_kernel", "is_compute_kernel"):          # other name classifiers: left open (every outcome is explored)
+            return ("nameclass", name, to_term(pos[0]))
         return NotImplemented
 
     for mem, val in sorted(enum.items()):
@@ -206,6 +211,15 @@ def _bound_by(db, chk, m):
                 I = Interp(db, call_hook=hook, decide=lambda c, comm=comm: comm if c == ("truthy", ("iscomm", T.P("NAME"))) else (not comm if c == ("not", ("truthy", ("iscomm", T.P("NAME")))) else None))
                 runs = [r for r in I.explore(ref, lambda I: {"row": dict(row)}) if r.raised is None]
                 tag = f"type={mem} ({val!r}), stream={stream}, communication kernel={comm}"
+                want = want_tbl.get(mem) if mem in want_tbl else ("cpu_bound" if stream < 0 else ("gpu_communication_bound" if comm else "gpu_compute_bound"))
+                if len(runs) > 1 and all(isinstance(r_.ret, str) for r_ in runs) and \
+                        all(isinstance(x, tuple) and x[0] in ("nameclass", "iscomm", "truthy", "not", "and", "or", "param", "const") for r_ in runs for c_ in r_.path for x in T.subterms(c_) if isinstance(x, tuple) and x) and \
+                        not any(isinstance(x, tuple) and len(x) == 2 and x[0] == "param" and x[1] != "NAME" for r_ in runs for c_ in r_.path for x in T.subterms(c_)):
+                    # the paths differ only in what OTHER name classifiers say about the same name: the class must not depend on them
+                    off = [{"when": T.show(r_.cond())[:120], "class": r_.ret} for r_ in runs if r_.ret != want]
+                    chk.ob(rule, f"{tag}: class (whatever other name classifiers say about the name)", not off, where, found=off or want, accepted=want,
+                           why="`every other device activity` is gpu_compute_bound: a classifier with a further class (OTHER for names containing Memcpy / Sync) leaves such kernels blank")
+                    continue
                 if len(runs) != 1:
                     others = sorted({x[1] for r_ in runs for c_ in r_.path for x in T.subterms(c_) if isinstance(x, tuple) and len(x) == 2 and x[0] == "param" and str(x[1]).startswith("row.")})
                     chk.ob(rule, f"{tag}: the class depends on the edge type, the host/device side (stream) and the kernel name alone", False if others else None, where, found={"outcomes": len(runs), "also reads": others},
@@ -224,17 +238,18 @@ def _bound_by(db, chk, m):
                        why="delay edges -> their overhead class; host thread -> cpu_bound; communication kernel -> gpu_communication_bound; other device activity -> gpu_compute_bound")
     # enum / string agreement: every string literal compared with row['type'] is the value of a CPEdgeType member
     lits = set()
-    for n in ast.walk(fn):
-        if isinstance(n, ast.Compare) and "row['type']" in ast.unparse(n.left):
+    for n in (x for unit in H.with_private_callees(m, fn, depth=2) for x in ast.walk(unit)):
+        if isinstance(n, ast.Compare):
             for c in n.comparators:
                 for x in ast.walk(c):
-                    if isinstance(x, ast.Constant) and isinstance(x.value, str):
+                    if isinstance(x, ast.Constant) and isinstance(x.value, str) and (x.value.startswith("critical_path") or "row['type']" in ast.unparse(n.left)):
                         lits.add(x.value)
     # (which members are tested is decided by the table above; here only: no literal that is not an edge-type value; references CPEdgeType.X.value are fine)
     chk.ob(rule, "every edge-type string literal tested in bound_by is the value of a CPEdgeType member", lits <= set(enum.values()), where, found=sorted(lits), accepted=sorted(enum[k] for k in want_tbl),
            why="a misspelt literal sends delay edges to the compute/cpu classes")
-    comm_test = [c for c in ast.walk(fn) if isinstance(c, ast.Call) and H.name_id(c.func) == "is_comm_kernel"]
-    chk.ob(rule, "communication kernels are recognised on the (decoded) event name", len(comm_test) == 1 and ast.unparse(H.expand(fn, comm_test[0].args[0])) == "row['s_name']", where, found=[ast.unparse(c) for c in comm_test], accepted="is_comm_kernel(row['s_name'])")
+    # decided on the evaluated paths: what is_comm_kernel was asked about
+    seen = sorted({T.show(a) for a in comm_args})
+    chk.ob(rule, "communication kernels are recognised on the (decoded) event name", (seen == [T.show(T.P("NAME"))]) if seen else None, where, found=seen, accepted="is_comm_kernel(row['s_name'])")
     chk.floor(rule, 8)
 
 
